@@ -198,6 +198,10 @@ def check_model(model, soft, key, acc, db, deep=True):
             acc.violation("C18/not-most-specific-vendor", "vendor chosen is not the most specific registered vendor matching the model",
                           dict(w, expected=exp, got=got, production=prod, candidates=cands))
     if prod is None:
+        if key is not None:
+            acc.violation("C18/model-of-the-device-database-has-no-vendor", "a model string matching an entry of the device database resolves to no registered vendor (so no rulebook can be loaded for it)",
+                          dict(w, true_entries=true_keys[:6]))
+            return None
         acc.count("no_vendor")
         return None
     # (c) rulebook loads: render, compile, logic functions resolve
